@@ -8,8 +8,10 @@
 # Prints, per break, the violation keys that appear in addition to the baseline's.
 import sys, os, subprocess, shutil, re, json
 WT='/tmp/wt-c10c08'
-FILES=['amd/driver/api.go','amd/driver/context.go','amd/driver/distributor.go','amd/driver/driver.go','amd/driver/internal/devicebuddymemstate.go','amd/driver/internal/memoryallocator.go','amd/driver/internal/devicememstateinterface.go','amd/driver/internal/device.go','amd/kernels/gridbuilder.go']
+FILES=['amd/emu/computeunit.go','amd/timing/cu/wfdispatcher.go','amd/driver/api.go','amd/driver/context.go','amd/driver/distributor.go','amd/driver/driver.go','amd/driver/internal/devicebuddymemstate.go','amd/driver/internal/memoryallocator.go','amd/driver/internal/devicememstateinterface.go','amd/driver/internal/device.go','amd/kernels/gridbuilder.go']
 MA='amd/driver/internal/memoryallocator.go'
+EMU='amd/emu/computeunit.go'
+TIM='amd/timing/cu/wfdispatcher.go'
 MUTS={
  # ---- C10
  'c10-m1-free-keeps-pagetable-entry': (MA, "	a.pageTable.Remove(page.PID, page.VAddr)\n", "	// a.pageTable.Remove(page.PID, page.VAddr)\n"),
@@ -38,6 +40,21 @@ MUTS={
  'c08-n7-driver-filter-z-stride': ('amd/driver/driver.go', "				wg.IDZ*int(numWGX)*int(numWGY) +", "				wg.IDZ*int(numWGY)*int(numWGY) +"),
  'c08-n8-y-wrap-drops-last-row': ('amd/kernels/gridbuilder.go', "			if yLeft <= 0 {\n				b.yid = 0", "			if yLeft <= 1 {\n				b.yid = 0"),
  'c08-n9-first-wi-flat-id-off': ('amd/kernels/gridbuilder.go', "wf.PacketAddress = b.packetAddr\n", "wf.PacketAddress = b.packetAddr\n			wf.FirstWiFlatID += 64 * (len(wg.Wavefronts) % 2)\n"),
+ # ---- C08 layer 2 (register initialisation); E = emulation, T = timing
+ 'c08-l2-t1-z-once-per-wavefront': (TIM, "		z = i / (wf.WG.SizeX * wf.WG.SizeY)\n", "		z = wf.FirstWiFlatID / (wf.WG.SizeX * wf.WG.SizeY)\n"),
+ 'c08-l2-e1-z-once-per-wavefront': (EMU, "		z = i / (wf.WG.SizeX * wf.WG.SizeY)\n", "		z = wf.FirstWiFlatID / (wf.WG.SizeX * wf.WG.SizeY)\n"),
+ 'c08-l2-t2-xy-swapped-in-partial-groups': (TIM, "		laneID := i - wf.FirstWiFlatID\n", "		laneID := i - wf.FirstWiFlatID\n		if wf.WG.CurrSizeX != wf.WG.SizeX {\n			x, y = y, x\n		}\n"),
+ 'c08-l2-e2-xy-swapped-in-partial-groups': (EMU, "		laneID := i - wf.FirstWiFlatID\n", "		laneID := i - wf.FirstWiFlatID\n		if wf.WG.CurrSizeX != wf.WG.SizeX {\n			x, y = y, x\n		}\n"),
+ 'c08-l2-t3-wgid-y-in-x-register': (TIM, "			insts.Uint32ToBytes(uint32(wf.WG.IDX)),", "			insts.Uint32ToBytes(uint32(wf.WG.IDY)),"),
+ 'c08-l2-e3-wgid-y-in-x-register': (EMU, "			uint32(wf.WG.IDX))", "			uint32(wf.WG.IDY))"),
+ 'c08-l2-t4-packed-y-shift-8': (TIM, "			packed := uint32(x) | (uint32(y) << 10) | (uint32(z) << 20)", "			packed := uint32(x) | (uint32(y) << 8) | (uint32(z) << 20)"),
+ 'c08-l2-e4-packed-y-shift-8': (EMU, "			packed := uint32(x) | (uint32(y) << 10) | (uint32(z) << 20)", "			packed := uint32(x) | (uint32(y) << 8) | (uint32(z) << 20)"),
+ 'c08-l2-t5-decomposition-by-currsize': (TIM, "		x = i % (wf.WG.SizeX * wf.WG.SizeY) % wf.WG.SizeX\n", "		x = i % (wf.WG.SizeX * wf.WG.SizeY) % wf.WG.CurrSizeX\n"),
+ 'c08-l2-e5-decomposition-by-currsize': (EMU, "		y = i % (wf.WG.SizeX * wf.WG.SizeY) / wf.WG.SizeX\n", "		y = i % (wf.WG.CurrSizeX * wf.WG.SizeY) / wf.WG.CurrSizeX\n"),
+ 'c08-l2-e6-wgid-z-not-written': (EMU, "			uint32(wf.WG.IDZ))", "			uint32(0))"),
+ 'c08-l2-t6-wg-count-y-floor': (TIM, "		wgCountY := (pkt.GridSizeY + uint32(pkt.WorkgroupSizeY) - 1) /", "		wgCountY := (pkt.GridSizeY + uint32(pkt.WorkgroupSizeY) - 0) /"),
+ 'c08-l2-t7-v2-written-at-level-1': (TIM, "		if co.EnableVgprWorkItemID() > 1 {", "		if co.EnableVgprWorkItemID() > 0 {"),
+ 'c08-l2-e7-kernarg-ptr-before-dispatch-ptr-slot': (EMU, "		binary.LittleEndian.PutUint64(wf.SRegFile[SGPRPtr:SGPRPtr+8], pkt.KernargAddress)\n		SGPRPtr += 8", "		binary.LittleEndian.PutUint64(wf.SRegFile[SGPRPtr:SGPRPtr+8], pkt.KernargAddress)\n		SGPRPtr += 4"),
 }
 HERE=os.path.dirname(os.path.abspath(__file__))
 FIXES=['fix_c10_A_allocator_pid_key_and_free_all_pages.diff','fix_c10_B_removeFreedBuffers.diff','fix_c10_C_buddy_parent_merge_bit.diff','fix_c08_formWavefronts.diff']
@@ -47,7 +64,9 @@ def restore(base):
         subprocess.run(['git','-C',WT,'show','HEAD:'+f],stdout=open(f'{WT}/{f}','w'),check=True)
     if base=='fixed':
         for d in FIXES:
-            subprocess.run(['git','-C',WT,'apply',os.path.join(HERE,d)],check=True)
+            # patches already merged upstream are skipped
+            if subprocess.run(['git','-C',WT,'apply','--check',os.path.join(HERE,d)],capture_output=True).returncode==0:
+                subprocess.run(['git','-C',WT,'apply',os.path.join(HERE,d)],check=True)
 def keys(out):
     return sorted(set(re.findall(r'key=(.*?) : ', out)))
 def run(prop, seed='1'):
